@@ -41,6 +41,19 @@ def check_prop(case, ev):
         raise Violation("to_text() differs after b64 round trip")
     if call(m.to_json, what="to_json") != call(m2.to_json, what="to_json"):
         raise Violation("to_json() differs after b64 round trip")
+    # the unpacked object, its nodes and its variables still COMPARE equal to the originals (==, membership), and the
+    # structural queries list the same things
+    f1 = call(m.flatten, what="flatten")
+    f2 = call(m2.flatten, what="flatten")
+    if [(type(x).__name__, str(x.id)) for x in f1] != [(type(x).__name__, str(x.id)) for x in f2]:
+        raise Violation(f"flatten() differs after b64 round trip: {[str(x.id) for x in f1]} vs {[str(x.id) for x in f2]}")
+    if not (m2 == m) or not (m == m2):
+        raise Violation("the unpacked proposition does not compare equal (==) to the original")
+    for x1, x2 in zip(f1, f2):
+        if not (x2 == x1):
+            raise Violation(f"the unpacked node / variable {x2!r} does not compare equal (==) to the original {x1!r}")
+        if oracle.is_leaf(x1) and (not (x2 == x1.id) or x1 not in f2):
+            raise Violation(f"the unpacked variable {x2!r} is not found by its id / by the original variable (==, in)")
     lv = oracle.leaves(m)
     comps = oracle.compounds(m)
     n = 0
@@ -212,6 +225,14 @@ def check_config(case, ev):
 def prop_case(draw, tier):
     if draw(st.integers(0, 2)) == 0:
         return {"model": draw(S.configurator_spec()), "points": None}
+    if draw(st.integers(0, 7)) == 0:
+        # thresholds and bounds beyond the small-integer range (quantities, weights): 257 .. 10^6
+        q = draw(st.sampled_from([257, 300, 1000, 65536, 10 ** 6]))
+        L = lambda i, hi: {"k": "leaf", "id": i, "b": [0, hi]}
+        big = {"k": "AtLeast", "v": q, "s": 1, "id": draw(st.sampled_from(["BIG", None])), "c": [L("weight_a", 2 * q), L("weight_b", q)]}
+        cap = {"k": "AtMost", "v": 3 * q, "id": "CAP", "c": [L("weight_a", 2 * q), L("weight_c", 2 * q)]}
+        return {"model": {"k": draw(st.sampled_from(["All", "Any"])), "id": "top", "c": [big, cap, {"k": "leaf", "id": "flag", "b": [0, 1]}]},
+                "points": [[q, 0, q, 1], [2 * q, q, 0, 0], [0, 0, 0, 1], [q - 1, 1, 2 * q, 0]]}
     return draw(common.model_case(guard=64, n_points=(6, 12), depth=3 if tier == "quick" else 4, allow_fix=True,
                                   allow_const_leaves=True, profile=draw(st.sampled_from(["small", "large"]))))
 
